@@ -199,6 +199,7 @@ macro_rules! h {
         #[kani::unwind($uw)]
         #[kani::stub(std::fmt::format, fmt_stub)]
         #[kani::stub(core::str::from_utf8, str_from_utf8_stub)]
+        #[kani::stub(<cfdp_core::pdu::MetadataTLVFieldCode as std::fmt::Display>::fmt, tlv_code_display_stub)]
         fn $name() {
             let _: () = $body;
             kani::cover!(true, "end of harness reached");
@@ -367,18 +368,20 @@ pub fn tlv(kind: u8, l: usize) -> MetadataTLV {
         _ => MetadataTLV::EntityID(id()),
     }
 }
-//# funcs=MetadataTLV::encode/decode/encoded_len (request, response, message); bound=bodies {0,3}; stubs=S3,S4
-h!(c05_q_metadata_tlv_a, 12, {
-    for l in [0usize, 3] {
-        rt_p(tlv(0, l));
-        rt_p(tlv(1, l));
-        rt_p(tlv(2, l));
-    }
+//# funcs=MetadataTLV::encode/decode/encoded_len (request); bound=bodies {0,3}; stubs=S3,S4
+h!(c05_q_metadata_tlv_request, 12, {
+    rt_p(tlv(0, 0));
+    rt_p(tlv(0, 3));
+});
+//# funcs=MetadataTLV::encode/decode/encoded_len (response, message); bound=bodies {0,3}; stubs=S3,S4
+h!(c05_q_metadata_tlv_response_message, 12, {
+    rt_p(tlv(1, 3));
+    rt_p(tlv(2, 0));
+    rt_p(tlv(2, 3));
 });
 //# funcs=MetadataTLV::encode/decode/encoded_len (fault handler, flow label, entity id); bound=bodies {0,3}, 4 id widths; stubs=S3
 hw!(c05_q_metadata_tlv_b, 12, WIDTHS, {
     rt_p(tlv(3, 0));
-    rt_p(tlv(4, 0));
     rt_p(tlv(4, 3));
     rt_p(tlv(5, 0));
 });
@@ -398,21 +401,27 @@ h!(c05_q_metadata_names, 12, {
         rt_f(md(flag, l1, l2, vec![]), flag);
     }
 });
-//# funcs=MetadataPDU::encode/decode with one option; bound=1 option of kinds request/message/fault handler; stubs=S3,S4
-h!(c05_q_metadata_option_a, 12, {
-    let flag = FileSizeFlag::Small;
-    rt_f(md(flag, 1, 1, vec![tlv(0, 1)]), flag);
-    rt_f(md(flag, 1, 0, vec![tlv(2, 1)]), flag);
-    rt_f(md(flag, 0, 1, vec![tlv(3, 0)]), flag);
+//# funcs=MetadataPDU::encode/decode with one filestore-request option; bound=names (1,1), request names (1,1), small flag; stubs=S3,S4
+h!(c05_q_metadata_opt_request, 12, {
+    rt_f(md(FileSizeFlag::Small, 1, 1, vec![tlv(0, 1)]), FileSizeFlag::Small);
 });
-//# funcs=MetadataPDU::encode/decode with options; bound=options (response),(flow label),(entity id),(request,message),(fault handler,entity id); stubs=S3,S4
-hw!(c05_q_metadata_option_b, 12, [(8u8, 1u8), (2, 1)], {
-    let flag = FileSizeFlag::Large;
-    rt_f(md(flag, 1, 1, vec![tlv(1, 1)]), flag);
-    rt_f(md(flag, 1, 0, vec![tlv(4, 1)]), flag);
-    rt_f(md(flag, 0, 1, vec![tlv(5, 0)]), flag);
-    rt_f(md(flag, 1, 1, vec![tlv(0, 1), tlv(2, 1)]), flag);
-    rt_f(md(flag, 1, 1, vec![tlv(3, 0), tlv(5, 0)]), flag);
+//# funcs=MetadataPDU::encode/decode with message / fault-handler options; bound=1 option; stubs=S3,S4
+h!(c05_q_metadata_opt_message_fault, 12, {
+    rt_f(md(FileSizeFlag::Small, 1, 0, vec![tlv(2, 1)]), FileSizeFlag::Small);
+    rt_f(md(FileSizeFlag::Large, 0, 1, vec![tlv(3, 0)]), FileSizeFlag::Large);
+});
+//# funcs=MetadataPDU::encode/decode with an entity-id option; bound=id widths 8 and 2; stubs=S3,S4
+hw!(c05_q_metadata_opt_entity_id, 12, [(8u8, 1u8), (2, 1)], {
+    rt_f(md(FileSizeFlag::Large, 0, 1, vec![tlv(5, 0)]), FileSizeFlag::Large);
+});
+//# funcs=MetadataPDU::encode/decode with two options (request,message); stubs=S3,S4
+h!(c05_t_metadata_opt_two, 12, {
+    rt_f(md(FileSizeFlag::Small, 1, 1, vec![tlv(0, 1), tlv(2, 1)]), FileSizeFlag::Small);
+});
+//# funcs=MetadataPDU::encode/decode with response / flow-label options; stubs=S3,S4
+h!(c05_t_metadata_opt_response_flow, 12, {
+    rt_f(md(FileSizeFlag::Large, 1, 1, vec![tlv(1, 1)]), FileSizeFlag::Large);
+    rt_f(md(FileSizeFlag::Large, 1, 0, vec![tlv(4, 1)]), FileSizeFlag::Large);
 });
 fn fin(k: usize) -> Finished {
     // fault location present iff an error condition (the shape is concrete: error for odd k, none for even k)
@@ -425,105 +434,100 @@ fn fin(k: usize) -> Finished {
     }
     Finished { condition: c, delivery_code: delivery(), file_status: file_status(), filestore_response: resp, fault_location: fl }
 }
-//# funcs=Finished::encode/decode/encoded_len; bound=0 or 1 filestore response, fault location iff error condition; stubs=S3,S4
-hw!(c05_q_finished_01, 14, [(8u8, 1u8), (1, 1)], {
+//# funcs=Finished::encode/decode/encoded_len; bound=no filestore response, no error; stubs=S3,S3b
+h!(c05_q_finished_0, 14, {
     rt_p(fin(0));
+});
+//# funcs=Finished::encode/decode/encoded_len; bound=1 filestore response, error condition with fault location (id widths 8, 1); stubs=S3,S3b,S4
+hw!(c05_q_finished_1, 14, [(8u8, 1u8), (1, 1)], {
     rt_p(fin(1));
 });
-//# funcs=Finished::encode/decode/encoded_len; bound=2 filestore responses; stubs=S3,S4
-hw!(c05_q_finished_2, 14, [(4u8, 1u8)], {
+//# funcs=Finished::encode/decode/encoded_len; bound=2 filestore responses; stubs=S3,S3b,S4
+h!(c05_t_finished_2, 14, {
     rt_p(fin(2));
 });
 
 // ------------------------------------------------------------------ user operations (reserved CFDP messages)
-//# funcs=UserOperation+OriginatingTransactionIDMessage encode/decode; bound=id widths {1,2,4,8}^2 full range; stubs=S3
+// The inner message types are checked through their own public encode/decode over their full value ranges; the
+// UserOperation wrapper ("cfdp" + message type + body) is checked once per variant with a small body.
+//# funcs=OriginatingTransactionIDMessage::encode/decode/encoded_len; bound=id widths (1,8),(2,4),(4,2),(8,1) full range; stubs=S3
 hw!(c05_q_uo_originating_id, 12, WIDTHS, {
-    rt_p(UserOperation::OriginatingTransactionIDMessage(OriginatingTransactionIDMessage { source_entity_id: id(), transaction_sequence_number: id2() }));
+    rt_p(OriginatingTransactionIDMessage { source_entity_id: id(), transaction_sequence_number: id2() });
 });
-//# funcs=UserOperation+ProxyPutRequest encode/decode; bound=names (1,3) ASCII, 4 id widths; stubs=S3,S4
+//# funcs=ProxyPutRequest::encode/decode/encoded_len; bound=names (1,3),(0,0) ASCII, 4 id widths; stubs=S3,S4
 hw!(c05_q_uo_proxy_put_request, 12, WIDTHS, {
-    rt_p(UserOperation::ProxyOperation(ProxyOperation::ProxyPutRequest(ProxyPutRequest {
-        destination_entity_id: id(),
-        source_filename: path(1),
-        destination_filename: path(3),
-    })));
+    rt_p(ProxyPutRequest { destination_entity_id: id(), source_filename: path(1), destination_filename: path(3) });
 });
-//# funcs=UserOperation+MessageToUser/FlowLabel (proxy, SFO) encode/decode; bound=body 3; stubs=S3
-h!(c05_q_uo_messages, 12, {
-    rt_p(UserOperation::ProxyOperation(ProxyOperation::ProxyMessageToUser(MessageToUser { message_text: bytes(3) })));
-    rt_p(UserOperation::SFOMessageToUser(MessageToUser { message_text: bytes(3) }));
-    rt_p(UserOperation::ProxyOperation(ProxyOperation::ProxyFlowLabel(FlowLabel { value: bytes(3) })));
-    rt_p(UserOperation::SFOFlowLabel(FlowLabel { value: bytes(3) }));
-});
-//# funcs=UserOperation+FileStoreRequest (proxy, SFO) encode/decode; bound=names (1,3),(3,0); stubs=S3,S4
-h!(c05_q_uo_filestore_request, 12, {
-    rt_p(UserOperation::ProxyOperation(ProxyOperation::ProxyFileStoreRequest(fs_request(1, 3))));
-    rt_p(UserOperation::SFOFileStoreRequest(fs_request(3, 0)));
-});
-//# funcs=UserOperation+FileStoreResponse (proxy, SFO) encode/decode; bound=names (1,3),(3,0), message 1; stubs=S3,S4
-h!(c05_q_uo_filestore_response, 12, {
-    rt_p(UserOperation::Response(UserResponse::ProxyFileStore(fs_response(1, 3, 1))));
-    rt_p(UserOperation::SFOFileStoreResponse(fs_response(3, 0, 1)));
-});
-//# funcs=UserOperation+FaultHandlerOverride/TransmissionMode/ProxyPutCancel/ProxyPutResponse encode/decode; bound=all values; stubs=S3
-h!(c05_q_uo_small, 12, {
-    rt_p(UserOperation::ProxyOperation(ProxyOperation::ProxyFaultHandlerOverride(FaultHandlerOverride { fault_handler_code: handler_code() })));
-    rt_p(UserOperation::SFOFaultHandlerOverride(FaultHandlerOverride { fault_handler_code: handler_code() }));
-    rt_p(UserOperation::ProxyOperation(ProxyOperation::ProxyTransmissionMode(mode())));
-    rt_p(UserOperation::ProxyOperation(ProxyOperation::ProxyPutCancel));
-    rt_p(UserOperation::Response(UserResponse::ProxyPut(ProxyPutResponse { condition: condition(), delivery_code: delivery(), file_status: file_status() })));
-});
-//# funcs=UserOperation+DirectoryListingRequest/Response encode/decode; bound=names (1,3),(3,0); stubs=S3,S4
+//# funcs=DirectoryListingRequest/Response encode/decode; bound=names (1,3),(3,0); stubs=S3,S4
 h!(c05_q_uo_directory_listing, 12, {
-    rt_p(UserOperation::Request(UserRequest::DirectoryListing(DirectoryListingRequest { directory_name: path(1), directory_filename: path(3) })));
-    rt_p(UserOperation::Response(UserResponse::DirectoryListing(DirectoryListingResponse {
-        response_code: listing_code(),
-        directory_name: path(3),
-        directory_filename: path(0),
-    })));
+    rt_p(DirectoryListingRequest { directory_name: path(1), directory_filename: path(3) });
+    rt_p(DirectoryListingResponse { response_code: listing_code(), directory_name: path(3), directory_filename: path(0) });
 });
-//# funcs=UserOperation+RemoteStatusReportRequest encode/decode; bound=id widths {1,2,4,8}^2, name 1; stubs=S3,S4
+//# funcs=RemoteStatusReportRequest::encode/decode; bound=4 id width pairs, name 1; stubs=S3,S4
 hw!(c05_q_uo_status_report_request, 12, WIDTHS, {
-    rt_p(UserOperation::Request(UserRequest::RemoteStatusReport(RemoteStatusReportRequest {
-        source_entity_id: id(),
-        transaction_sequence_number: id2(),
-        report_filename: path(1),
-    })));
+    rt_p(RemoteStatusReportRequest { source_entity_id: id(), transaction_sequence_number: id2(), report_filename: path(1) });
 });
-//# funcs=UserOperation+RemoteStatusReportResponse encode/decode; bound=id widths {1,2,4,8}^2, 4 statuses; stubs=S3
+//# funcs=RemoteStatusReportResponse::encode/decode; bound=4 id width pairs, 4 statuses; stubs=S3
 hw!(c05_q_uo_status_report_response, 12, WIDTHS, {
-    rt_p(UserOperation::Response(UserResponse::RemoteStatusReport(RemoteStatusReportResponse {
-        transaction_status: tx_status(),
-        response_code: kani::any(),
-        source_entity_id: id(),
-        transaction_sequence_number: id2(),
-    })));
+    rt_p(RemoteStatusReportResponse { transaction_status: tx_status(), response_code: kani::any(), source_entity_id: id(), transaction_sequence_number: id2() });
 });
-//# funcs=UserOperation+RemoteSuspendRequest encode/decode; bound=id widths {1,2,4,8}^2; stubs=S3
-hw!(c05_q_uo_suspend_request, 12, WIDTHS, {
-    rt_p(UserOperation::Request(UserRequest::RemoteSuspend(RemoteSuspendRequest { source_entity_id: id(), transaction_sequence_number: id2() })));
+//# funcs=RemoteSuspendRequest,RemoteResumeRequest encode/decode; bound=4 id width pairs; stubs=S3
+hw!(c05_q_uo_suspend_resume_request, 12, WIDTHS, {
+    rt_p(RemoteSuspendRequest { source_entity_id: id(), transaction_sequence_number: id2() });
+    rt_p(RemoteResumeRequest { source_entity_id: id(), transaction_sequence_number: id2() });
 });
-//# funcs=UserOperation+RemoteSuspendResponse encode/decode; bound=id widths {1,2,4,8}^2, 4 statuses; stubs=S3
+//# funcs=RemoteSuspendResponse::encode/decode; bound=4 id width pairs, 4 statuses; stubs=S3
 hw!(c05_q_uo_suspend_response, 12, WIDTHS, {
-    rt_p(UserOperation::Response(UserResponse::RemoteSuspend(RemoteSuspendResponse {
-        suspend_indication: kani::any(),
-        transaction_status: tx_status(),
-        source_entity_id: id(),
-        transaction_sequence_number: id2(),
-    })));
+    rt_p(RemoteSuspendResponse { suspend_indication: kani::any(), transaction_status: tx_status(), source_entity_id: id(), transaction_sequence_number: id2() });
 });
-//# funcs=UserOperation+RemoteResumeRequest encode/decode; bound=id widths {1,2,4,8}^2; stubs=S3
-hw!(c05_q_uo_resume_request, 12, WIDTHS, {
-    rt_p(UserOperation::Request(UserRequest::RemoteResume(RemoteResumeRequest { source_entity_id: id(), transaction_sequence_number: id2() })));
-});
-//# funcs=UserOperation+RemoteResumeResponse encode/decode; bound=id widths {1,2,4,8}^2, 4 statuses; stubs=S3
+//# funcs=RemoteResumeResponse::encode/decode; bound=4 id width pairs, 4 statuses; stubs=S3
 hw!(c05_q_uo_resume_response, 12, WIDTHS, {
-    rt_p(UserOperation::Response(UserResponse::RemoteResume(RemoteResumeResponse {
-        suspend_indication: kani::any(),
-        transaction_status: tx_status(),
-        source_entity_id: id(),
-        transaction_sequence_number: id2(),
-    })));
+    rt_p(RemoteResumeResponse { suspend_indication: kani::any(), transaction_status: tx_status(), source_entity_id: id(), transaction_sequence_number: id2() });
+});
+
+fn uo_wrap(v: UserOperation) {
+    rt_p(v);
+}
+//# funcs=UserOperation::encode/decode/encoded_len/get_message_type (proxy operations); bound=one value of small shape per variant (1-byte ids, names <= 1); stubs=S3,S4
+h!(c05_q_uo_wrap_proxy, 12, {
+    set_widths(1, 1);
+    uo_wrap(UserOperation::ProxyOperation(ProxyOperation::ProxyPutRequest(ProxyPutRequest { destination_entity_id: id(), source_filename: path(1), destination_filename: path(0) })));
+    uo_wrap(UserOperation::ProxyOperation(ProxyOperation::ProxyMessageToUser(MessageToUser { message_text: bytes(1) })));
+    uo_wrap(UserOperation::ProxyOperation(ProxyOperation::ProxyFileStoreRequest(fs_request(1, 0))));
+    uo_wrap(UserOperation::ProxyOperation(ProxyOperation::ProxyFaultHandlerOverride(FaultHandlerOverride { fault_handler_code: handler_code() })));
+});
+//# funcs=UserOperation::encode/decode (proxy operations, continued); stubs=S3
+h!(c05_q_uo_wrap_proxy2, 12, {
+    uo_wrap(UserOperation::ProxyOperation(ProxyOperation::ProxyTransmissionMode(mode())));
+    uo_wrap(UserOperation::ProxyOperation(ProxyOperation::ProxyFlowLabel(FlowLabel { value: bytes(1) })));
+    uo_wrap(UserOperation::ProxyOperation(ProxyOperation::ProxyPutCancel));
+    uo_wrap(UserOperation::Response(UserResponse::ProxyPut(ProxyPutResponse { condition: condition(), delivery_code: delivery(), file_status: file_status() })));
+});
+//# funcs=UserOperation::encode/decode (responses); bound=1-byte ids, names <= 1; stubs=S3,S4
+h!(c05_q_uo_wrap_responses, 12, {
+    set_widths(1, 1);
+    uo_wrap(UserOperation::Response(UserResponse::ProxyFileStore(fs_response(1, 0, 1))));
+    uo_wrap(UserOperation::Response(UserResponse::DirectoryListing(DirectoryListingResponse { response_code: listing_code(), directory_name: path(1), directory_filename: path(0) })));
+    uo_wrap(UserOperation::Response(UserResponse::RemoteStatusReport(RemoteStatusReportResponse { transaction_status: tx_status(), response_code: kani::any(), source_entity_id: id(), transaction_sequence_number: id2() })));
+    uo_wrap(UserOperation::Response(UserResponse::RemoteSuspend(RemoteSuspendResponse { suspend_indication: kani::any(), transaction_status: tx_status(), source_entity_id: id(), transaction_sequence_number: id2() })));
+    uo_wrap(UserOperation::Response(UserResponse::RemoteResume(RemoteResumeResponse { suspend_indication: kani::any(), transaction_status: tx_status(), source_entity_id: id(), transaction_sequence_number: id2() })));
+});
+//# funcs=UserOperation::encode/decode (requests, originating id); bound=1-byte ids, names <= 1; stubs=S3,S4
+h!(c05_q_uo_wrap_requests, 12, {
+    set_widths(1, 1);
+    uo_wrap(UserOperation::OriginatingTransactionIDMessage(OriginatingTransactionIDMessage { source_entity_id: id(), transaction_sequence_number: id2() }));
+    uo_wrap(UserOperation::Request(UserRequest::DirectoryListing(DirectoryListingRequest { directory_name: path(1), directory_filename: path(0) })));
+    uo_wrap(UserOperation::Request(UserRequest::RemoteStatusReport(RemoteStatusReportRequest { source_entity_id: id(), transaction_sequence_number: id2(), report_filename: path(1) })));
+    uo_wrap(UserOperation::Request(UserRequest::RemoteSuspend(RemoteSuspendRequest { source_entity_id: id(), transaction_sequence_number: id2() })));
+    uo_wrap(UserOperation::Request(UserRequest::RemoteResume(RemoteResumeRequest { source_entity_id: id(), transaction_sequence_number: id2() })));
+});
+//# funcs=UserOperation::encode/decode (SFO messages that can be built outside the crate); stubs=S3,S4
+h!(c05_q_uo_wrap_sfo, 12, {
+    uo_wrap(UserOperation::SFOMessageToUser(MessageToUser { message_text: bytes(1) }));
+    uo_wrap(UserOperation::SFOFlowLabel(FlowLabel { value: bytes(1) }));
+    uo_wrap(UserOperation::SFOFaultHandlerOverride(FaultHandlerOverride { fault_handler_code: handler_code() }));
+    uo_wrap(UserOperation::SFOFileStoreRequest(fs_request(0, 1)));
+    uo_wrap(UserOperation::SFOFileStoreResponse(fs_response(0, 1, 0)));
 });
 
 // ------------------------------------------------------------------ whole PDUs (header + payload, CRC on and off)
@@ -543,7 +547,7 @@ fn whole(payload: PDUPayload, crc: CRCFlag, flag: FileSizeFlag) -> PDU {
 const CF: [(CRCFlag, FileSizeFlag); 2] = [(CRCFlag::Present, FileSizeFlag::Small), (CRCFlag::NotPresent, FileSizeFlag::Large)];
 const CF2: [(CRCFlag, FileSizeFlag); 2] = [(CRCFlag::NotPresent, FileSizeFlag::Small), (CRCFlag::Present, FileSizeFlag::Large)];
 //# funcs=PDU::encode/decode/encoded_len,crc16_ibm_3740 with ACK payload; bound=all header fields, id widths (1,8),(8,2), (CRC,flag) = (on,small),(off,large); stubs=S3
-hw!(c05_q_pdu_ack, 24, [(1u8, 8u8), (8, 2)], {
+hw!(c05_q_pdu_ack, 24, [(8u8, 2u8)], {
     for (crc, flag) in CF {
         let op = Operations::Ack(PositiveAcknowledgePDU {
             directive: PDUDirective::Finished,
@@ -571,7 +575,7 @@ hw!(c05_q_pdu_eof, 40, [(4u8, 1u8)], {
     }
 });
 //# funcs=PDU::encode/decode with file-data payload (unsegmented, 2 bytes); bound=id widths (1,1),(8,8), (CRC,flag) = (on,small),(off,large); stubs=S3
-hw!(c05_q_pdu_file_data, 40, [(1u8, 1u8), (8, 8)], {
+hw!(c05_q_pdu_file_data, 40, [(1u8, 8u8)], {
     for (crc, flag) in CF {
         rt_p(whole(PDUPayload::FileData(FileDataPDU::Unsegmented(UnsegmentedFileData { offset: fsv(flag), file_data: bytes(2) })), crc, flag));
     }
